@@ -36,7 +36,7 @@ type symv struct {
 	kind types.BasicKind // Go kind for sInt/sReal (types.Int, types.Uint8, ...)
 	// conservative interval for sInt (saturating at ivMin/ivMax = unknown)
 	lo, hi int64
-	opaque bool // produced by an imprecise model (must not decide anything)
+	opaque bool   // produced by an imprecise model (must not decide anything)
 	tbl    *table // finite-domain decision table (see table.go), nil otherwise
 }
 
